@@ -768,8 +768,20 @@ unsafe extern "C" fn on_signal(sig: libc::c_int, info: *mut libc::siginfo_t, ctx
         regs.g[libc::REG_RIP as usize] = vharness_fault_resume as *const () as usize as i64;
         return;
     }
-    let msg = b"vharness: unexpected fault outside a recoverable region; exiting 2\n";
+    let msg = b"vharness: unexpected fault outside a recoverable region; exiting 2: sig/code/addr/rip/rsp = ";
     libc::write(2, msg.as_ptr() as *const libc::c_void, msg.len());
+    for v in [sig as u64, code as u64, addr, rip, regs.get(4)] {
+        let mut buf = [b'0'; 19];
+        buf[0] = b' ';
+        buf[1] = b'0';
+        buf[2] = b'x';
+        for k in 0..16 {
+            let d = ((v >> (60 - 4 * k)) & 0xf) as u8;
+            buf[3 + k] = if d < 10 { b'0' + d } else { b'a' + d - 10 };
+        }
+        libc::write(2, buf.as_ptr() as *const libc::c_void, buf.len());
+    }
+    libc::write(2, b"\n".as_ptr() as *const libc::c_void, 1);
     libc::_exit(2);
 }
 
